@@ -31,6 +31,10 @@ import LitexModel.Soc.CsrBanks
   call banks <csr_data_width> <csr_address_width> <paging> <csr_base> [<name>:<loc> ...] ; B <name> <w>x<n> ... ; ...
       SoC.finalize over CSR banks: fixed pages (add_csr) first, then one `B` per bank in scan order with its
       registers as <bit width>x<count>  ->  rej:<err>  |  ok # name:page:nsimple:origin ...
+      an optional last `; R <origin> <size>` adds one more bus slave (add_ram) next to the csr bridge; the answer ends
+      with ` # csr:<origin>:<size> # ram:<ok|rej|->` (the csr bus region of add_csr_bridge, the verdict of add_ram)
+  call cm2 <entry> ... ; <0|1> <op> ; ...   two managers built from the same io list, calls tagged with the instance
+      ->  <result of instance 0> ## <result of instance 1>   (each as for `cm`; "-" if no call was made on it)
   call cm <entry> ... ; <op> ; ...        entry = uid:name:num[:sub,sub,...]
       op:  Q <name> <num|N> <loose>   request;  QA <name>  request_all;  QR <name>  request_remaining;
            L <name> <num|N> <sub|N> <loose>  lookup_request;   X <prepend> <entry> ...   add_extension
@@ -166,15 +170,44 @@ def pBank : List String → Option (Bank Nat)
     some { name := ← n.toNat?, widths := groups.flatten }
   | _ => none
 
-def callBanks (dwid awid pg base : Nat) (fixed : List (Nat × Int)) (banks : List (Bank Nat)) : String :=
+def callBanks (dwid awid pg base : Nat) (fixed : List (Nat × Int)) (banks : List (Bank Nat)) (ram : Option (Nat × Nat)) :
+    String :=
+  let s0 : BusH Nat := { aw := 32, dw := 32 }
+  let bus := s0.run (csrBus base awid ram)
+  let vs := s0.verdicts (csrBus base awid ram)
   match csrHandlerR Nat dwid awid 32 pg fixed with
   | .error e => "rej:" ++ errName e
   | .ok h =>
+    match vs.getLast? with
+    | some (some e) => "rej:" ++ errName e          -- finalize: add_csr_bridge refused
+    | _ =>
     match h.finalizeBanks pg dwid banks with
     | .error e => "rej:" ++ errName e
     | .ok (_, l) =>
+      let creg := match bus.regionOf 0 with | some r => s!"csr:{r.origin}:{r.size}" | none => "csr:None:None"
+      let rv := match ram, vs[1]? with
+        | some _, some none => "ok" | some _, _ => "rej" | none, _ => "-"
       "ok # " ++ unwords (l.map fun p =>
-        s!"{p.1.name}:{p.2}:{simpleCount dwid p.1.widths}:{(base : Int) + (pg : Int) * p.2}")
+        s!"{p.1.name}:{p.2}:{simpleCount dwid p.1.widths}:{(base : Int) + (pg : Int) * p.2}") ++ s!" # {creg} # ram:{rv}"
+
+def pTagged : List String → Option (Bool × CmOp)
+  | i :: rest => do some (← pBool i, ← pCmOp rest)
+  | _ => none
+
+def showCm (s0 : Cm) (ops : List CmOp) : String :=
+  let s := s0.run ops
+  " # ".intercalate [unwords ((s0.outs ops).map showOut), unwords (s.available.map (toString ·.uid)),
+    unwords (s.matched.map (toString ·.uid)), unwords (s.sigConstraints.map fun p => s!"{p.1}:{sOptNat p.2}")]
+
+/-- Two managers built from one io list; an instance on which no call is made is never created ("-"). -/
+def callCm2 (io : List Res) (ops : List (Bool × CmOp)) : String :=
+  let s0 : Cm := { available := io }
+  let fin := Cm.run2 s0 s0 ops
+  let one (i : Bool) (s : Cm) : String :=
+    if (Cm.callsOn i ops).isEmpty then "-"
+    else " # ".intercalate [unwords ((s0.outs (Cm.callsOn i ops)).map showOut), unwords (s.available.map (toString ·.uid)),
+      unwords (s.matched.map (toString ·.uid)), unwords (s.sigConstraints.map fun p => s!"{p.1}:{sOptNat p.2}")]
+  one false fin.1 ++ " ## " ++ one true fin.2
 
 /-! ### dispatch -/
 
@@ -217,8 +250,17 @@ def call (args : List String) : Option String :=
     match splitSemi rest with
     | [] => none
     | fixed :: banks =>
+      let banks := banks.filter (· ≠ [])
+      let ram ← match banks.getLast? with
+        | some ["R", o, sz] => do some (some (← o.toNat?, ← sz.toNat?))
+        | _ => some none
+      let banks := if ram.isSome then banks.dropLast else banks
       some (callBanks (← dwid.toNat?) (← awid.toNat?) (← pg.toNat?) (← base.toNat?) (← fixed.mapM pReserved)
-        (← (banks.filter (· ≠ [])).mapM pBank))
+        (← banks.mapM pBank) ram)
+  | "cm2" :: rest => do
+    match splitSemi rest with
+    | [] => none
+    | tbl :: ops => some (callCm2 (← tbl.mapM pRes) (← (ops.filter (· ≠ [])).mapM pTagged))
   | "cm" :: rest => do
     match splitSemi rest with
     | [] => none
